@@ -28,7 +28,7 @@ pub fn alphabet() -> Vec<Tk> {
         Tk::Dup16,
         Tk::Swap16,
     ];
-    for t in [Label(0), IntoPush, AfterLabel(0), Len, Big32(0), Symbolic] {
+    for t in [Label(0), IntoPush, AfterLabel(0), Len, Big32(0), Big64(0), Symbolic] {
         v.push(Tk::J(t));
     }
     for t in [Label(0), IntoPush, AfterLabel(0), Len, Big32(0), Symbolic] {
